@@ -40,7 +40,8 @@ Print Assumptions C09_verifiers_unguarded_refuted.
    whose k-th storage call fails: exactly one error response, or the grant logic answers *)
 Theorem C09_handlers_total :
   (forall s : shape, match handler true s with OResp _ _ | OGrant | OFault => True | _ => False end) /\
-  (forall x : xshape, match xhandler true x with OResp _ _ | OGrant | OFault => True | _ => False end).
+  (forall x : xshape, match xhandler true x with OResp _ _ | OGrant | OFault => True | _ => False end) /\
+  (forall x : cshape, match chandler true x with OResp _ _ | OGrant | OFault => True | _ => False end).
 Proof. exact handlers_total. Qed.
 Print Assumptions C09_handlers_total.
 
@@ -60,6 +61,12 @@ Theorem C09_revoke_unfixed_refuted : exists x, xhandler false x = OContinued.
 Proof. exact revoke_unfixed_refuted. Qed.
 Print Assumptions C09_revoke_unfixed_refuted.
 
+(* seeded regression: a mismatch message that reads challenge.Method panics LegacyServer.CodeExchange when a
+   code_verifier arrives for a request stored without a challenge *)
+Theorem C09_code_nil_challenge_refuted : exists x, chandler false x = OPanic.
+Proof. exact code_nil_challenge_refuted. Qed.
+Print Assumptions C09_code_nil_challenge_refuted.
+
 (* F03: without the return after the parse error, Basic credentials with a bad escape panic CodeExchange *)
 Theorem C09_handlers_unfixed_refuted : exists s, handler false s = OPanic.
 Proof. exact handlers_unfixed_refuted. Qed.
@@ -71,6 +78,14 @@ Theorem C09_client_total :
     call rfc3339_ok lang_class true h a expect <> CPanic.
 Proof. exact call_total. Qed.
 Print Assumptions C09_client_total.
+
+(* a helper reports success only for a 200 answer whose whole body is one JSON document
+   (trailing bytes after a complete value are an error) *)
+Theorem C09_client_success_only_on_documents :
+  forall (rfc3339_ok : string -> bool) (lang_class : string -> nat) h a e,
+    call rfc3339_ok lang_class true h a e = CRetOk -> a_ok a = true /\ exists j, a_body a = BJson j.
+Proof. exact client_success_only_on_documents. Qed.
+Print Assumptions C09_client_success_only_on_documents.
 
 (* F12: without the null guard in HttpRequest, a 200 answer with body null panics client.Discover *)
 Theorem C09_client_unguarded_refuted :
